@@ -2,7 +2,7 @@
    (Obj/WriterModel.v, printers Obj/WmPrinters.v) prints. *)
 From QV Require Import Base.Bytes Lex.TokModel Lex.LexSpec Lex.TokInterp Lex.LexRun Lex.LexProofs
      Obj.Unparse Obj.UnparseProofs Obj.SynSpec Obj.SynMachine Obj.ParseModel Obj.ParseProofs Obj.ParseSim
-     Obj.Queue File.WriterArith Obj.WriterModel Obj.WmPrinters File.C02Proofs Obj.C01FileProofs.
+     Obj.Queue File.WriterArith Obj.WriterModel Obj.WmPrinters File.C02Proofs Obj.C01FileProofs File.XrefModel File.RdModel.
 From Coq Require Import Lia.
 Local Open Scope N_scope.
 
@@ -659,3 +659,144 @@ Proof.
   pose proof (rw_syn_obj objs ren Hren o (Datatypes.S (length (rd_toks objs ren o))) [] ND ltac:(lia) I) as Hs.
   rewrite app_nil_r in Hs. exact Hs.
 Qed.
+
+(* ================================================================== readObjectAtOffset on an emitted object *)
+
+(* ------------------------------------------------------------------ Objects::readToken on a step of the specification lexer *)
+Lemma rw_tok_step : forall inp tok rest pos, rw_step inp tok rest ->
+  exists tk pos' last, rd_tok 0 inp pos = (tk, rest, pos', last) /\ tok_interp tk = Some tok.
+Proof.
+  intros inp tok rest pos (B & S & V).
+  destruct (next_token_complete_lemma inp tok rest rd_tk pos B eq_refl ltac:(discriminate) S V) as (t1 & np & last & Hn & Hi).
+  unfold rd_tok, read_token. rewrite Hn. exists (tk_token t1), np, last. split; [reflexivity | exact Hi].
+Qed.
+
+Lemma rw_step_ws : forall c s tok r, c < 256 -> iso_white c = true -> rw_step s tok r -> rw_step (c :: s) tok r.
+Proof.
+  intros c s tok r Hc Hw (B & S & V). split; [constructor; assumption|]. split.
+  - unfold spec_next. cbn [skip_ignorable]. rewrite Hw. exact S.
+  - unfold head_run. cbn [skip_ignorable]. rewrite Hw. exact V.
+Qed.
+Lemma rw_chain_ws : forall c s ts f, c < 256 -> iso_white c = true -> good_chain s ts f -> ts <> [] -> good_chain (c :: s) ts f.
+Proof.
+  intros c s ts f Hc Hw H Hne. destruct H as [inp|inp tok rest ts final Hb Hs Hv Hch]; [contradiction|].
+  apply (rw_chain_cons (c :: inp) tok rest ts final); [|exact Hch]. apply rw_step_ws; [exact Hc | exact Hw|]. split; [|split]; assumption.
+Qed.
+
+Lemma rw_int_tok : forall tk z, tok_interp tk = Some (PInt z) -> in_int_range z = true ->
+  rd_is_int tk = true /\ rd_to_int (tok_value tk) = Some z.
+Proof.
+  intros tk z Hi Hr. destruct (interp_inv _ _ Hi) as (_ & Hty & Hv). split.
+  - unfold rd_is_int. rewrite Hty. reflexivity.
+  - unfold rd_to_int. rewrite (text_to_ll_int _ _ Hv); [rewrite Hr; reflexivity|].
+    unfold in_int_range in Hr. apply andb_true_iff in Hr. destruct Hr as [A1 A2]. apply Z.leb_le in A1. apply Z.leb_le in A2.
+    apply andb_true_iff. split; apply Z.leb_le; lia.
+Qed.
+Lemma rw_word_tok : forall tk w, tok_interp tk = Some (PKeyword w) -> forall w', rd_is_word tk w' = list_eqb N.eqb w w'.
+Proof.
+  intros tk w Hi w'. destruct (interp_inv _ _ Hi) as (_ & Hty & Hv). unfold rd_is_word, rd_beq. rewrite Hty, Hv. reflexivity.
+Qed.
+
+Definition rw_container (v : obj) : Prop := match v with OArr _ | ODict _ => True | _ => False end.
+
+(* readObjectAtOffset(try_recovery, offset, "", (k, 0)) on `k 0 obj\n` <printed array or dictionary> `\nendobj\n` followed
+   by something that is not white space: the object read is the printed one (R_obj), as (k, 0), without any warning. *)
+Lemma rd_read_at_emitted_lemma : forall e resolve objs ren k v tail off,
+  rd_at (rde_file e) off = obj_header k ++ unparse wm_unparse_string wm_unparse_name objs ren v ++ s_endobj ++ tail ->
+  off <> 0 -> 0 < k -> (Z.of_N k <= 2147483647)%Z ->
+  (forall id, 0 < ren id) -> rw_container v -> rw_wf v = true -> rw_nd objs v = true ->
+  ints_ok (rd_toks objs ren v) -> refs_ok (rd_toks objs ren v) = true ->
+  opens (rd_toks objs ren v) <= 500 -> len (rd_toks objs ren v) < 4294967295 ->
+  bytes_ok tail -> (match tail with c :: _ => c_isspace c = false | [] => False end) ->
+  exists o', rd_read_at e resolve false off (Some (k, 0))
+             = RdrObj (Z.of_N k) 0 (mkRdObj (rd_fixrefs (rd_known e) o') None false) []
+          /\ R_obj o' (rd_sy objs ren v).
+Proof.
+  intros e resolve objs ren k v tail off Hat Hoff Hk Hkmax Hren Hc W ND Hi Hr Ho Hl Bt Htail.
+  set (Uv := unparse wm_unparse_string wm_unparse_name objs ren v) in *.
+  set (E := 10 :: [101; 110; 100; 111; 98; 106] ++ 10 :: tail).
+  assert (BE : bytes_ok E) by (unfold E; cbn [app]; repeat constructor; exact Bt).
+  pose proof (rw_chain_obj objs ren v E W BE eq_refl) as Hch. fold Uv in Hch.
+  assert (BU : bytes_ok (Uv ++ E)).
+  { destruct (rd_toks objs ren v) as [|t0 ts0] eqn:Et; [exfalso; exact (rd_toks_ne objs ren v Et)|]. exact (rw_chain_bytes _ _ _ _ Hch). }
+  set (X3 := 10 :: Uv ++ E). set (X2 := 32 :: [111; 98; 106] ++ X3). set (X1 := 32 :: [48] ++ X2).
+  assert (B3 : bytes_ok X3) by (unfold X3; constructor; [reflexivity | exact BU]).
+  assert (B2 : bytes_ok X2) by (unfold X2; cbn [app]; repeat (first [assumption | constructor; [reflexivity|]])).
+  assert (B1 : bytes_ok X1) by (unfold X1; cbn [app]; repeat (first [assumption | constructor; [reflexivity|]])).
+  assert (Hat' : rd_at (rde_file e) off = dec_of_N k ++ X1).
+  { rewrite Hat. unfold obj_header, s_endobj, X1, X2, X3, E, Uv. rewrite <- !app_assoc. reflexivity. }
+  (* the three header tokens *)
+  destruct (rw_tok_step _ _ _ off (rw_step_N k X1 B1 eq_refl)) as (tk1 & p1 & l1 & T1 & I1).
+  assert (S2 : rw_step X1 (PInt 0) X2) by (unfold X1; apply rw_step_sp; apply (rw_step_int 0 X2 B2); reflexivity).
+  destruct (rw_tok_step _ _ _ p1 S2) as (tk2 & p2 & l2 & T2 & I2).
+  assert (S3 : rw_step X2 (PKeyword [111; 98; 106]) X3).
+  { unfold X2. apply rw_step_sp. apply (rw_step_kw [111; 98; 106] (PKeyword [111; 98; 106]) X3); try reflexivity; [discriminate | exact B3]. }
+  destruct (rw_tok_step _ _ _ p2 S3) as (tk3 & p3 & l3 & T3 & I3).
+  assert (Rk : in_int_range (Z.of_N k) = true) by (unfold in_int_range; apply andb_true_iff; split; apply Z.leb_le; lia).
+  destruct (rw_int_tok _ _ I1 Rk) as [J1 V1]. destruct (rw_int_tok _ _ I2 eq_refl) as [J2 V2].
+  pose proof (rw_word_tok _ _ I3 rd_s_obj) as W3. change (list_eqb N.eqb [111; 98; 106] rd_s_obj) with true in W3.
+  (* the object *)
+  assert (Hch3 : good_chain X3 (rd_toks objs ren v) E).
+  { unfold X3. apply rw_chain_ws; [reflexivity | reflexivity | exact Hch | apply rd_toks_ne]. }
+  pose proof (rw_syn_obj objs ren Hren v (Datatypes.S (length (rd_toks objs ren v))) [] ND ltac:(lia) I) as Hs.
+  rewrite app_nil_r in Hs.
+  destruct (rd_toks objs ren v) as [|tok0 toks] eqn:Et; [exfalso; exact (rd_toks_ne objs ren v Et)|].
+  assert (H0 : tok0 = PArrOpen \/ tok0 = PDictOpen).
+  { destruct v; try contradiction; cbn [rd_toks] in Et; injection Et as <- _; [left | right]; reflexivity. }
+  assert (Hi' : ints_ok toks) by (unfold ints_ok in *; inversion Hi; assumption).
+  pose proof (refs_ok_tail _ _ Hr) as Hr'.
+  destruct (parse_complete_container_lemma X3 tok0 toks E _ rd_tk p3 Hch3 H0 Hs Hi' Hr' Ho Hl eq_refl ltac:(discriminate))
+    as (o' & P1 & P2 & P3 & P4).
+  (* endobj *)
+  assert (S4 : rw_step E (PKeyword [101; 110; 100; 111; 98; 106]) (10 :: tail)).
+  { unfold E. apply rw_step_ws; [reflexivity | reflexivity|].
+    apply (rw_step_kw [101; 110; 100; 111; 98; 106] (PKeyword [101; 110; 100; 111; 98; 106]) (10 :: tail)); try reflexivity;
+      [discriminate | constructor; [reflexivity | exact Bt]]. }
+  exists o'. split; [|exact P2].
+  unfold rd_read_at. assert (Eoff : (off =? 0) = false) by (apply N.eqb_neq; exact Hoff). rewrite Eoff. cbn [andb].
+  unfold rd_object_start. rewrite Hat', T1. cbv beta iota. rewrite J1. cbn [negb]. rewrite T2. cbv beta iota. rewrite J2. cbn [negb].
+  rewrite T3. cbv beta iota. rewrite W3. cbn [negb]. rewrite V1, V2.
+  assert (Ek : (Z.of_N k =? 0)%Z = false) by (apply Z.eqb_neq; lia). rewrite Ek.
+  rewrite Z.eqb_refl. change ((0 =? Z.of_N 0)%Z) with true. cbn [andb negb].
+  unfold rd_read_object.
+  set (r := parse_object false false rd_tk X3 p3) in *.
+  rewrite P1, P3, P4. cbn [map].
+  destruct (rw_tok_step _ _ _ (pr_pos r) S4) as (tk4 & p4 & l4 & T4 & I4).
+  rewrite T4.
+  pose proof (rw_word_tok _ _ I4 rd_s_endobj) as W4. change (list_eqb N.eqb [101; 110; 100; 111; 98; 106] rd_s_endobj) with true in W4.
+  pose proof (rw_word_tok _ _ I4 rd_s_stream) as W5. change (list_eqb N.eqb [101; 110; 100; 111; 98; 106] rd_s_stream) with false in W5.
+  assert (Hsk : rd_skip_cspace (10 :: tail) = true).
+  { cbn [rd_skip_cspace]. change (c_isspace 10) with true. cbv iota. destruct tail as [|c r']; [contradiction|].
+    cbn [rd_skip_cspace]. rewrite Htail. reflexivity. }
+  destruct (rd_fixrefs (rd_known e) o') eqn:Ef; rewrite ?W5, W4; cbn [app]; rewrite Hsk; reflexivity.
+Qed.
+
+(* ------------------------------------------------------------------ rd_reads_writer_output: what is proved, what is missing
+   Goal: for every wf_doc d (plus: no real numbers, printed dictionary keys pairwise different at every level, integers
+   within long long, at most 500 container openings per object, the output a byte string, "startxref" occurring once in the
+   last 1054 bytes, /Root a /Catalog with a /Pages dictionary), rd_view (write_doc d) = the view of d with no warning.
+   PROVED (this file):
+     1. the two printer models are the same functions (rd_writer_printers_agree);
+     2. the ISO specification lexer reads every printed object token by token (rd_unparse_chain) and the ISO object
+        grammar reads the tokens as the object (rd_unparse_syn);
+     3. THE BRIDGE: Parser::parse (model) reads a printed array / dictionary / one-token object as that object, without
+        warning, leaving exactly the rest (rd_unparse_parses_container, rd_unparse_parses_scalar);
+     4. readObjectAtOffset (model) on `k 0 obj\n` + printed container + `\nendobj\n` + non-space: RdrObj (k, 0) with the
+        object of 3 and no warning (rd_read_at_emitted).
+   MISSING, in the order of rd_view:
+     a. rd_find_header / rd_version on WriterModel.header (easy: computation on `%PDF-d.d\n`);
+     b. rd_find_last_sx on the output: needs a lemma "the last accepted `startxref` is the one write_doc prints", i.e. a
+        statement about arbitrary bytes (stream data) in the last 1054 bytes; with the side condition above it is a scan lemma;
+     c. rd_read_xtable on `xref\n0 n\n` + entries + `trailer <<...>>`: rd_xref_first on the 50-byte buffer, rd_xref_entry on
+        WriterArith.xref_line (zero padded 10 + 5 digits: rd_span_zeros / rd_entry_digits), c3_entry folding to the table
+        [(k, 0, C3Use off_k 0)] (needs k <= file size / 3), the trailer through the bridge (the /ID hex strings are covered
+        by rw_step_str only if hexstr = wm_unparse_string's hex form: not shown);
+     d. rd_gen_pass / sort on that table (rd_highest_generation_only applies), the /Size test;
+     e. composition of 4 with Obj/C01FileProofs.offs_of_at / write_doc_shape for every object (needs the explicit tail of
+        the chunk - offs_of_at leaves it existential - and bytes_ok of the whole output), and rd_fixrefs = identity on
+        closed documents;
+     f. stream objects: rd_read_stream on `\nstream\n` data `endstream` is rd_stream_extent (File/C03ProofsRd.v) with
+        rd_end_follows_lemma (e = [], dl = LF) once the stream dictionary is read by the bridge (unparse_stream_dict, not
+        unparse, is printed: the bridge has to be restated for it);
+     g. reals (excluded from the class: the relation between StrictSyntax.parse_number, by which wf_wobj admits a real, and
+        LexSpec.number_of_run is not proved) - with them the result can only be stated up to R_obj (reals by value). *)
